@@ -47,6 +47,9 @@ def kinds_for(abi="wasm32"):
         "iarr2x2": ("int {n}[2][2]", {"k": "arr", "el": {"k": "arr", "el": prim(i_, i_, True, "i"), "n": 2}, "n": 2}, "int[2][2]"),
         "larr2x2": ("long {n}[2][2]", {"k": "arr", "el": {"k": "arr", "el": prim(l_, l_, True, "i"), "n": 2}, "n": 2}, "long[2][2]"),
         "inner": ("GenInner {n}", {"k": "struct", "fs": [prim(1, 1, True, "i"), prim(l_, l_, True, "i")]}, "GenInner"),
+        # a nested struct that holds pointers (object and function): their translation inside a whole-struct
+        # copy goes through the nested converter
+        "innerp": ("GenInnerP {n}", {"k": "struct", "fs": [prim(p_, p_, False, "p"), prim(2, 2, True, "i"), prim(p_, p_, False, "c")]}, "GenInnerP"),
     }
 
 
@@ -88,6 +91,8 @@ def slots_of(kind, fname):
         return [("%s[%d][%d]" % (fname, i, j), sk) for i in range(2) for j in range(2)]
     if kind == "inner":
         return [("%s.a" % fname, "char"), ("%s.b" % fname, "long")]
+    if kind == "innerp":
+        return [("%s.p" % fname, "ptr"), ("%s.s" % fname, "short"), ("%s.fn" % fname, "fnptr")]
     return [(fname, kind)]
 
 
@@ -100,6 +105,7 @@ def gen(structs, abi="wasm32"):
     o.append("enum genEnum { GE0, GE1, GE2 = 70000 };")
     o.append("using GenFn = int (*)(int);")
     o.append("struct GenInner { char a; long b; };")
+    o.append("struct GenInnerP { int* p; short s; GenFn fn; };")
     for si, kinds in enumerate(structs):
         o.append("struct GS%d {" % si)
         for fi, k in enumerate(kinds):
@@ -108,6 +114,8 @@ def gen(structs, abi="wasm32"):
     # reflection macros
     o.append("#define sandbox_fields_reflection_gen_class_GenInner(f, g, ...) \\")
     o.append("  f(char, a, FIELD_NORMAL, ##__VA_ARGS__) g() f(long, b, FIELD_NORMAL, ##__VA_ARGS__) g()")
+    o.append("#define sandbox_fields_reflection_gen_class_GenInnerP(f, g, ...) \\")
+    o.append("  f(int*, p, FIELD_NORMAL, ##__VA_ARGS__) g() f(short, s, FIELD_NORMAL, ##__VA_ARGS__) g() f(GenFn, fn, FIELD_NORMAL, ##__VA_ARGS__) g()")
     for si, kinds in enumerate(structs):
         o.append("#define sandbox_fields_reflection_gen_class_GS%d(f, g, ...) \\" % si)
         parts = []
@@ -115,7 +123,7 @@ def gen(structs, abi="wasm32"):
             parts.append("f(%s, f%d, FIELD_NORMAL, ##__VA_ARGS__) g()" % (KINDS[k][2], fi))
         o.append("  " + " ".join(parts))
     o.append("#define sandbox_fields_reflection_gen_allClasses(f, ...) \\")
-    o.append("  f(GenInner, gen, ##__VA_ARGS__) " + " ".join("f(GS%d, gen, ##__VA_ARGS__)" % si for si in range(len(structs))))
+    o.append("  f(GenInner, gen, ##__VA_ARGS__) f(GenInnerP, gen, ##__VA_ARGS__) " + " ".join("f(GS%d, gen, ##__VA_ARGS__)" % si for si in range(len(structs))))
     o.append("rlbox_load_structs_from_library(gen);")
     # per-struct drivers
     for si, kinds in enumerate(structs):
